@@ -208,3 +208,105 @@ def pt_depth(t):
     if t[0] == 'leaf':
         return nest_depth(t[1])
     return max(pt_depth(t[2]), pt_depth(t[3]))
+
+
+# ---------------------------------------------------------------- shrinking (greedy delta debugging on the AST)
+def _variants_tree(t):
+    if t[0] == 'op':
+        yield t[2]
+        yield t[3]
+        for v in _variants_tree(t[2]):
+            yield ('op', t[1], v, t[3])
+        for v in _variants_tree(t[3]):
+            yield ('op', t[1], t[2], v)
+
+
+def _variants_ntree(t):
+    if t[0] == 'op':
+        yield t[2]
+        yield t[3]
+        for v in _variants_ntree(t[2]):
+            yield ('op', t[1], v, t[3])
+        for v in _variants_ntree(t[3]):
+            yield ('op', t[1], t[2], v)
+    else:
+        for v in _variants_part(t[1]):
+            yield ('leaf', v)
+
+
+def _variants_ptree(t):
+    if t[0] == 'op':
+        for v in _variants_ptree(t[2]):
+            yield ('op', t[1], v, t[3])
+        for v in _variants_ptree(t[3]):
+            yield ('op', t[1], t[2], v)
+    else:
+        for v in variants(t[1]):
+            if v:
+                yield ('leaf', v)
+
+
+def _variants_part(p):
+    if p[0] == 'comp':
+        _, sym, suf, ann, c = p
+        if ann:
+            yield ('comp', sym, suf, '', c)
+        if suf:
+            yield ('comp', sym, '', ann, c)
+        if c[0] == 'comb':
+            if c[1]:
+                yield ('comp', sym, suf, ann, ('comb', '', c[2], c[3]))
+            if c[3]:
+                yield ('comp', sym, suf, ann, ('comb', c[1], c[2], ''))
+            for v in _variants_tree(c[2]):
+                yield ('comp', sym, suf, ann, ('comb', c[1], v, c[3]) if v[0] == 'op' else v)
+    elif p[0] == 'nested':
+        _, sym, suf, ann, st = p
+        if ann:
+            yield ('nested', sym, suf, '', st)
+        if suf:
+            yield ('nested', sym, '', ann, st)
+        for v in variants(st):
+            if v:
+                yield ('nested', sym, suf, ann, v)
+    elif p[0] == 'ncombo':
+        for v in _variants_ntree(p[2]):
+            yield ('ncombo', p[1], v) if v[0] == 'op' else v[1]
+    elif p[0] == 'pairs':
+        if p[1][0] == 'op':
+            yield ('pairs', p[1][2])
+            yield ('pairs', p[1][3])
+        for v in _variants_ptree(p[1]):
+            yield ('pairs', v)
+
+
+def variants(parts):
+    for i in range(len(parts)):
+        yield parts[:i] + parts[i + 1:]
+    for i, p in enumerate(parts):
+        for v in _variants_part(p):
+            if v[0] == 'pairs' and v[1][0] == 'leaf':
+                yield parts[:i] + list(v[1][1]) + parts[i + 1:]
+            else:
+                yield parts[:i] + [v] + parts[i + 1:]
+
+
+def shrink(parts, pred, budget=150):
+    """Smallest statement (greedy) on which pred(parts) still holds; pred is called at most budget times."""
+    cur = parts
+    improved = True
+    while improved and budget > 0:
+        improved = False
+        for v in variants(cur):
+            if budget <= 0:
+                break
+            budget -= 1
+            try:
+                ok = pred(v)
+            except Exception:
+                ok = False
+            if ok:
+                cur = v
+                improved = True
+                break
+    return cur
